@@ -392,6 +392,42 @@ func (s *script) oooBurst(g, k int) bool {
 	return alive
 }
 
+// edgeProbe: a data segment whose first byte sits EXACTLY on the right edge of the window the stack
+// advertised (wholly outside it: it must not be kept), sometimes one byte before or after, and
+// then in-order data that fills the window exactly up to that edge without the application
+// reading in between - whatever was wrongly queued at the edge would now be delivered.
+func (s *script) edgeProbe() bool {
+	st := s.c.Snap()
+	edgeOff := s.pNext + int(st.RcvAcc-st.RcvNxt)
+	if int(st.RcvAcc-st.RcvNxt) <= 0 || int(st.RcvAcc-st.RcvNxt) > 60000 {
+		return s.peerData(0)
+	}
+	off := edgeOff + []int{0, 0, 0, -1, 1}[s.r.Intn(5)]
+	n := 1 + s.r.Intn(s.mss)
+	if off < 0 || off+n > len(s.peer) {
+		return s.peerData(0)
+	}
+	t := netx.TCPSeg{Seq: s.seqOf(off), Ack: s.ackNow(), Flags: netx.FlagAck, Wnd: 30000, Payload: s.peer[off : off+n]}
+	if !s.seg(t) {
+		return false
+	}
+	// fill the window in order, in one or two segments
+	room := edgeOff - s.pNext
+	for room > 0 {
+		k := room
+		if k > 1 && s.r.Intn(2) == 0 {
+			k = 1 + s.r.Intn(room)
+		}
+		f := netx.TCPSeg{Seq: s.seqOf(s.pNext), Ack: s.ackNow(), Flags: netx.FlagAck, Wnd: 30000, Payload: s.peer[s.pNext : s.pNext+k]}
+		s.pNext += k
+		room -= k
+		if !s.seg(f) {
+			return false
+		}
+	}
+	return true
+}
+
 // peerFill sends in-order data that exactly respects the stack's latest advertised right edge
 // (ack + wnd<<scale), in chunks of arbitrary parity, so that a receive buffer with window scaling
 // can be filled to within 2^scale-1 bytes of its end.
@@ -614,9 +650,12 @@ func (s *script) event() bool {
 		case x < 55:
 			s.count("ack-other")
 			return s.pureAck(1 + s.r.Intn(4))
-		case x < 75:
+		case x < 70:
 			s.count("peer-data")
 			return s.peerData(s.r.Intn(4))
+		case x < 75:
+			s.count("peer-data-at-the-edge")
+			return s.edgeProbe()
 		case x < 90:
 			s.count("read")
 			return s.read()
